@@ -124,9 +124,39 @@ def pred(bev, n):
         a, b = bev.ev(n[4]), bev.ev(n[5])
         if a[0] == "c":
             a, b = b, a
-        if a[0] == "f" and b == ("c", 0):
-            return [("nz" if n[2] == "Ne" else "z", a[1], a[2])]
+        if a[0] == "f" and b[0] == "c":
+            # (inner & A) ^ X  ==/!=  c    <=>   (inner & A) ^ (X ^ c)  ==/!=  0
+            return [("nz" if n[2] == "Ne" else "z", a[1], a[2] ^ b[1])]
     raise Unk(f"unrecognised predicate {H.short(n)}")
+
+
+def pred_eval(disj, raw):
+    """truth of a disjunction of atoms ('nz'|'z', A, X) meaning ((raw & A) ^ X) != 0 / == 0"""
+    return any((((raw & A) ^ X) != 0) == (k == "nz") for k, A, X in disj)
+
+
+def pred_differs(d, exp, C, w):
+    """None when the extracted predicate d is the specified one; otherwise a description with a witness raw value."""
+    norm = []
+    for k, A, X in d:
+        if k == "z" and X == A and A != 0 and bin(A).count("1") == 1:
+            norm.append(("nz", A, 0))  # single bit: containment == intersection
+        else:
+            norm.append((k, A, X))
+    if sorted(norm) == sorted(exp):
+        return None
+    cands = {0, ones(w), C, ones(w) ^ C}
+    for i in range(w):
+        cands.add(1 << i)
+        if C & (1 << i):
+            cands.add(C ^ (1 << i))
+    for k, A, X in d:
+        cands.update({A, X, A ^ X})
+    for raw in sorted(cands):
+        got, want = pred_eval(d, raw), pred_eval(exp, raw)
+        if got != want:
+            return f"for the raw value {raw:#x} the query returns {str(got).lower()} but its bits {'do' if raw & C else 'do not'} intersect the value (extracted test: {d})"
+    return f"tests {d}, which could not be shown equal to the specification {exp} — review"
 
 
 def struct_lit(n):
@@ -314,8 +344,9 @@ def check_flag_type(ctx, g, crate, lpath, wflag, zero_valid, rule_prefix, key0, 
                 exp = [("nz", C, 0)]
                 if zero_valid:
                     exp.append(("z", ones(w), 0))
-                if sorted(d) != sorted(exp):
-                    viol(mname, f"tests {d}, specification is {exp} (bits {C:#x}{' or value zero' if zero_valid else ''})", fn)
+                why = pred_differs(d, exp, C, w)
+                if why:
+                    viol(mname, f"{why}; the is-query must report exactly whether the enumerator's bits {C:#x} intersect the value{' (or the value is zero)' if zero_valid else ''}", fn)
             elif kind == "get":
                 # Option<&Member>: self.member.as_ref()
                 e = H.strip(fn["hir"])
